@@ -720,3 +720,11 @@ engine_init_unit("C07.engine_init", "C07")
 from contracts.c16 import observable_unit  # noqa: E402
 
 observable_unit("interleaved", uid="C07.epoch_start_times_consecutive", prop="C07")
+
+
+# "the tuning call receives that epoch's history": every epoch - also one that re-uses the configuration object of its predecessor - gets a chain of
+# its own (same harness as C08.manager_advance_and_append)
+import contracts.c08  # noqa: E402,F401
+from pyvc.unit import reuse as _reuse  # noqa: E402
+
+_reuse("C08.manager_advance_and_append", "C07.every_epoch_gets_its_own_history_chain", "C07")
